@@ -125,6 +125,9 @@ func c04GenLater(r *rng) c04TxSpec {
 	if r.bool() {
 		body = append(body, n04("try", "body", n04("move", "c", r.intn(c04NAcc), "v", pick(r, c04Amounts), "body", put()), "fin", ntf()))
 	}
+	// a value another transaction of this block may have written: read, derive a Buffer, scribble
+	body = append(body, n04("mut", "k", r.intn(c04NKeys), "v", r.intn(c04NHow)),
+		n04("try", "body", call(ct(), n04("mut", "k", r.intn(c04NKeys), "v", r.intn(c04NHow)), n04("throw")), "catch", n04("skip")))
 	body = append(body, n04("notifyval", "k", r.intn(c04NKeys)), n04("notifyfee"))
 	ops := []*c04Node{call(ct(), body...)}
 	if r.bool() { // the same under an entry-level try body
